@@ -87,4 +87,23 @@ def runPredictor : PState → List Int → List Int × PState
     let rest := runPredictor r.2 ps
     (r.1 :: rest.1, rest.2)
 
+/-- an idealised steady producer: one certificate every `period`, the first at time `phase`;
+`produced t` certificates exist at time `t` -/
+def produced (period phase t : Int) : Int := if t < phase then 0 else (t - phase) / period + 1
+
+/-- closed loop of the predictor against the steady producer, ignoring request time: poll at `t`,
+feed the number of new certificates, wait the returned interval -/
+def closedLoop (period phase : Int) : Nat → PState → Int → Int → List Int
+  | 0, _, _, _ => []
+  | n + 1, s, t, seen =>
+    let now := produced period phase t
+    let r := update s (now - seen)
+    r.1 :: closedLoop period phase n r.2 (t + r.1) now
+
+/-- executable form of the closed-loop envelope: in the second half of `n` polls every wait is within
+a factor two of the production period -/
+def settlesWithin (mn ini mx period phase : Int) (n : Nat) : Bool :=
+  ((closedLoop period phase n (PState.init mn ini mx) ini 0).drop (n / 2)).all
+    (fun w => decide (period ≤ 2 * w) && decide (w ≤ 2 * period))
+
 end F3.Poll
